@@ -322,7 +322,9 @@ def gen_literal(rng):
     pool = ["1_-5", "1_+5", "+5", "+0x10", "+0b1", "0b12", "0b", "0x", "0xg", "0x1g", "0b1_", "1_", "_1", "1__0", "5.",
             "1.5.5", "0X10", "0B1", "1e", "1e+", "1ee5", "1e5.5", "+.5", ".", "..5", "1._5", "1.5_0", "1e1_0", "00012",
             "0x_1", "0b_1", "0x1__2", "1e999", "1e-999", "0e999", "12abc", "1x", "0b102", "0x-1", "1E+05", "-", "--",
-            "0x8000000000000000", "-0x8000000000000000", "0b" + "1" * 64, "1_e5", "1e_5", "1_.5", "0.e5", "١٢٣"]
+            "0x8000000000000000", "-0x8000000000000000", "0b" + "1" * 64, "1_e5", "1e_5", "1_.5", "0.e5", "١٢٣",
+            "(5)", "(-5)", "-(5)", "-(-5)", "(-0)", "(1_000)", "(0x10)", "(.5e1)", "( 5 )", "((5))", "(5", "5)",
+            "(0xFFFFFFFFFFFFFFFF)", "(1_-5)", "(-0.1)", "()"]
     t = rng.choice(pool)
     if rng.chance(1, 4):
         t = rng.choice(["-", "--", "---"]) + t
@@ -612,7 +614,7 @@ def main(argv):
                 if m[key] != "T":
                     mism["model"].append((xb, what, c.unhex(rv), "a different text"))
             for what, mv, rv in (("source read-back", m["SR"], f["SR"]), ("formatter read-back", m["SR"], f["FR"]),
-                                 ("emission read-back", m["SR"], f["ER"]), ("to_number(to_string)", m["DN"], f["DN"]),
+                                 ("emission read-back", m["ER"], f["ER"]), ("to_number(to_string)", m["DN"], f["DN"]),
                                  ("JSON read-back", jm, f["JR"])):
                 if mv == "UNMODELLED" and not finite:
                     continue
@@ -757,6 +759,32 @@ def main(argv):
                                    "observed": hx16(ob), "observed_text": otext,
                                    "rerun": "blots -i '{\"x\":[%s]}' 'output x = inputs.x' </dev/null" % c.unhex(f["J"])})
 
+    # ---------------------------------------------------------------- literals through the real CLI binary
+    # `output x = [lit, lit, ...]` : real parser + evaluator + JSON output of the shipped executable, valued
+    # by the independent Python reference on the way in and by Python's correctly rounded float() on the way out
+    cli_lit_checked = 0
+    docl = [(t, py_literal_value(t)) for t, cls in lits if cls in ("doc", "corpus")]
+    docl = [(t, r) for t, r in docl if isinstance(r, int) and is_finite_bits(r)]
+    n_cli_lit = min(len(docl), 600 if quick else 6000)
+    docl = docl[:n_cli_lit]
+    for k in range(0, len(docl), 300):
+        chunk = docl[k:k + 300]
+        p = subprocess.run([cli, "output x = [%s]" % ", ".join(t for t, _ in chunk)], stdin=subprocess.DEVNULL,
+                           capture_output=True, text=True, timeout=600)
+        body = p.stdout.strip()
+        items = body[len('{"x":['):-2].split(",") if body.startswith('{"x":[') and body.endswith("]}") else None
+        if p.returncode != 0 or items is None or len(items) != len(chunk):
+            res.violation("the CLI fails on a list of documented numeric literals",
+                          {"kind": "c16-cli-lit-batch", "observed": "exit %d: %s" % (p.returncode, (p.stdout + p.stderr)[-300:]),
+                           "program": "output x = [%s]" % ", ".join(t for t, _ in chunk[:20])})
+            break
+        bad = [(t, r, it) for (t, r), it in zip(chunk, items) if bits_of(float(it)) != r]
+        cli_lit_checked += len(chunk)
+        for t, r, it in bad[:2]:
+            res.violation("a numeric literal does not come out of the real CLI with its documented value",
+                          {"kind": "c16-cli-lit", "text": t, "expected": hx16(r), "observed_text": it,
+                           "rerun": "blots 'output x = %s' </dev/null" % t})
+
     # ---------------------------------------------------------------- known findings: re-run the witnesses
     for e in c.open_known(PID):
         w = e.get("witness", {})
@@ -770,7 +798,8 @@ def main(argv):
         res.known("%s %s%s" % (e["id"], e["what"], "" if still else " (no longer reproduces)"))
 
     n_f = sum(1 for b in xs if is_finite_bits(b))
-    res.coverage["evaluations"] = 5 * len(xs) + len(lits) + 2 * len(tonums) + len(jsons) + cli_checked
+    res.coverage["evaluations"] = (5 * len(xs) + len(lits) + 2 * len(tonums) + len(jsons) + cli_checked
+                                   + cli_lit_checked)
     res.coverage["distinct_nontrivial"] = len(nontrivial)
     res.coverage["rule"] = ("distinct finite doubles taken through all five textual paths, plus distinct literal texts "
                             "that reach literal conversion (not rejected by the grammar), plus distinct to_number / JSON "
@@ -798,6 +827,7 @@ def main(argv):
                               "radix_ge_2^63_rejected_known_F25": f25_hits}
     res.streams["TONUMBER"] = {"texts": len(tonums), "mismatches": len(tn_mism)}
     res.streams["JSONTEXT"] = {"texts": len(jsons), "mismatches": len(js_mism)}
+    res.streams["CLI-LITERAL"] = {"literals": cli_lit_checked}
     res.streams["CLI"] = {"numbers": cli_checked, "1ulp_off_known_F17": cli_f17, "serde_float_roundtrip_cli": exact_cli}
     res.assumptions = [
         "library contracts are hypotheses of the round-trip theorems (Rust Display shortest round-trip without exponent, "
